@@ -78,6 +78,28 @@ impl Ev {
     self.s.push('"');
     self
   }
+  /// array of strings
+  pub fn sa(mut self, key: &str, v: &[String]) -> Ev {
+    self.s.push_str(",\"");
+    self.s.push_str(key);
+    self.s.push_str("\":[");
+    for (n, x) in v.iter().enumerate() {
+      if n > 0 {
+        self.s.push(',');
+      }
+      self.s.push('"');
+      for c in x.chars() {
+        match c {
+          '"' => self.s.push_str("\\\""),
+          '\\' => self.s.push_str("\\\\"),
+          _ => self.s.push(c),
+        }
+      }
+      self.s.push('"');
+    }
+    self.s.push(']');
+    self
+  }
   pub fn done(mut self) -> String {
     self.s.push('}');
     self.s
